@@ -906,6 +906,26 @@ func TestC02(t *testing.T) {
 	// (c) updates with overlapping paths: model and defining reduction
 	rec.Rapid(t, "update-defn", rec.Scale(40000, 2000000), func(t *rapid.T) {
 		in := uniqueLeaf().Draw(t, "input")
+		if rapid.IntRange(0, 9).Draw(t, "long") == 0 {
+			// the same overlap scenarios inside long arrays (capacity growth,
+			// in-place branches and sweeps at sizes beyond the small ones)
+			m := rapid.SampledFrom([]int{15, 16, 17, 31, 32, 33, 64, 65}).Draw(t, "longn")
+			arr := make([]any, m)
+			for i := range arr {
+				switch i % 6 {
+				case 0:
+					arr[i] = []any{1000 + i*10, 1001 + i*10}
+				case 1:
+					arr[i] = map[string]any{"a": 1000 + i*10, "b": []any{1001 + i*10}}
+				default:
+					arr[i] = 1000 + i*10
+				}
+			}
+			in = arr
+			if rapid.Bool().Draw(t, "wrap") {
+				in = map[string]any{"a": arr, "b": 5}
+			}
+		}
 		var p string
 		var classes []string
 		if rapid.IntRange(0, 3).Draw(t, "pathsrc") == 0 {
@@ -963,9 +983,30 @@ func TestC02(t *testing.T) {
 	// (d) delpaths against the Go model
 	rec.Rapid(t, "delpaths", rec.Scale(30000, 1500000), func(t *rapid.T) {
 		in := uniqueLeaf().Draw(t, "input")
+		n := rapid.IntRange(0, 5).Draw(t, "npaths")
+		if rapid.IntRange(0, 7).Draw(t, "long") == 0 {
+			// long containers and many paths: the sorting / merging of the path
+			// list and the sweep over marked elements at sizes beyond the small ones
+			m := rapid.SampledFrom([]int{12, 13, 31, 32, 33, 64, 65, 100}).Draw(t, "longn")
+			arr := make([]any, m)
+			for i := range arr {
+				switch i % 5 {
+				case 0:
+					arr[i] = []any{i * 10, i*10 + 1}
+				case 1:
+					arr[i] = map[string]any{"a": i * 10, "b": []any{i*10 + 1}}
+				default:
+					arr[i] = i * 10
+				}
+			}
+			in = arr
+			if rapid.Bool().Draw(t, "wrap") {
+				in = map[string]any{"a": arr, "b": 5}
+			}
+			n = rapid.IntRange(1, 3*m/2).Draw(t, "longpaths")
+		}
 		var ps [][]any
 		allPaths(in, nil, &ps)
-		n := rapid.IntRange(0, 5).Draw(t, "npaths")
 		c := delCase{Input: univ.V{X: in}}
 		wrongType := false
 		for i := 0; i < n; i++ {
